@@ -212,9 +212,11 @@ theorem C18_source_perturbations (old d : Rat) :
 open Mxl.Generated.C18 in
 /-- structure of the source: both model-writing routines reset in a `finally:` (the models above branch on these
     flags, the frame theorems need them to be `true`), and `parameter_elasticities` resolves `variables` once, before
-    the first perturbation, handing it to every flux evaluation -/
+    the first perturbation, handing it to every flux evaluation; `Model.update_variables` / `update_parameters` check every
+    name before the first write (the `wr` steps: a failing update leaves the model as it was) -/
 theorem C18_source_structure :
-    parFinallyResets = true ∧ respFinallyRestores = true ∧ parStateResolvedOnce = true := by decide
+    parFinallyResets = true ∧ respFinallyRestores = true ∧ parStateResolvedOnce = true ∧
+    updatesCheckNamesFirst = true := by decide
 
 /-! ### the model is left as it was found -/
 
